@@ -47,31 +47,79 @@ def r1_single_writer(ctx, mod):
                              "the recorded output is replaced")
 
 
-def r2_per_execution(ctx, mod):
-    ctx.rule('R2', "_start_mocking pushes one fresh buffer per execution; _stop_mocking pops it and hands "
-                   "getvalue() and the same context to append_output")
+def r2_per_execution(ctx, mod, sym):
+    ctx.rule('R2', "_start_mocking / _stop_mocking executed abstractly (both print settings, with an older buffer "
+                   "already on the stack): start pushes exactly one new, empty buffer and patches sys.stdout with that "
+                   "very object; stop pops it and hands its getvalue() and the same context to append_output")
+    from .. import symexec
     sm = mod.func('Sandbox._start_mocking')
-    pushes = [c for c in method_calls(sm, 'append') if is_self_attr(c.func.value, '_current_stdout')]
-    g_ok = len(pushes) >= 1 and all(isinstance(c.args[0], ast.Call) and call_name(c.args[0]) in (
-        'io.StringIO', 'StringIO', 'PrintingStringIO') and not c.args[0].args for c in pushes)
-    # exactly one push on every path: pushes sit in the two arms of one if/else
-    par = {id(getattr(c, '_parent', None) and c._parent._parent) for c in pushes}
-    ctx.check(g_ok and (len(pushes) == 1 or (len(pushes) == 2 and len(par) == 1)), 'R2', '_start_mocking:fresh-buffer',
-              mod, sm, "_start_mocking does not push exactly one new, empty buffer",
-              "an execution writes into a buffer that already holds another execution's text")
     st = mod.func('Sandbox._stop_mocking')
+    ctx.analysed_function(mod, sm)
     ctx.analysed_function(mod, st)
-    ctxp = st.args.args[1].arg
-    defs = {norm(n.targets[0]): n.value for n in body_walk(st) if isinstance(n, ast.Assign)}
-    ap = [c for c in calls(st) if is_self_call(c, 'append_output')]
-    ok = len(ap) == 1 and len(ap[0].args) == 2 and norm(ap[0].args[1]) == ctxp
-    if ok:
-        a0 = ap[0].args[0]
-        ok = isinstance(a0, ast.Call) and isinstance(a0.func, ast.Attribute) and a0.func.attr == 'getvalue' and \
-            norm(defs.get(norm(a0.func.value))) == 'self._current_stdout.pop()'
-    ctx.check(ok, 'R2', '_stop_mocking:records-popped-buffer', mod, st,
-              "_stop_mocking does not append the popped buffer's text for the same context",
-              "an execution's output is lost or attributed to another execution")
+    for print_setting in (None, True, False):
+        rec = symexec.Recorder()
+        created = []
+
+        def new_buffer(kind):
+            def f(*a, **k):
+                o = Obj('buffer:' + kind, ctor_args=a, ctor_kwargs=k, text=symexec.marker('text-of-new-buffer'))
+                symexec.method(o, 'getvalue', lambda: o.attrs['text'])
+                created.append(o)
+                return o
+            return f
+        older = Obj('buffer:older', text=symexec.marker('text-of-older-buffer'))
+        symexec.method(older, 'getvalue', lambda: older.attrs['text'])
+        builtins = {} if print_setting is None else {'print': print_setting}
+        me = symexec.self_obj(mod, 'Sandbox', _current_stdout=[older], _current_patches=[],
+                              _module_overrides={'__builtins__': builtins, 'os': True, 'turtle': 'mock-turtle'},
+                              data={}, modules={})
+        for name in ('mock_function', '_track_inputs', '_reset_builtins', '_mock_builtins', '_start_patches',
+                     '_stop_patches', 'append_output'):
+            symexec.method(me, name, rec.stub(name))
+        context = Obj('context', inputs=symexec.marker('inputs'))
+        patch = rec.stub('patch', fn=lambda *a, **k: Obj('patch', target=a[0] if a else None, args=a, kwargs=k))
+        fd = symexec.new_fd(sym, mod, calls={'io.StringIO': new_buffer('StringIO'), 'StringIO': new_buffer('StringIO'),
+                                             'PrintingStringIO': new_buffer('PrintingStringIO'),
+                                             'patch': patch, 'patch.dict': rec.stub('patch.dict', ret=Obj('patch.dict'))},
+                            extra={'sys.modules': {'sys': 'real-sys'}})
+        tag = '[print=%r]' % (print_setting,)
+        _, raised = symexec.run(fd, sm, [context], bound_self=me, what='Sandbox._start_mocking')
+        stack = me.attrs['_current_stdout']
+        ok = raised is None and len(stack) == 2 and stack[0] is older and len(created) == 1 and stack[1] is created[0] \
+            and not created[0].attrs['ctor_args'] and not created[0].attrs['ctor_kwargs']
+        ctx.check(ok, 'R2', '_start_mocking:fresh-buffer' + tag, mod, sm,
+                  "_start_mocking does not push exactly one new, empty buffer (stack afterwards: %r, buffers created: "
+                  "%d%s)" % (stack, len(created), '' if raised is None else ', raises ' + raised.kind),
+                  "an execution writes into a buffer that already holds another execution's text")
+        if ok:
+            want_kind = 'buffer:PrintingStringIO' if print_setting is True else 'buffer:StringIO'
+            ctx.check(created[0]._name == want_kind, 'R2', '_start_mocking:buffer-kind' + tag, mod, sm,
+                      "with builtins print=%r the buffer is a %s" % (print_setting, created[0]._name),
+                      "output is echoed to the real console (or not) against the setting")
+            outs = [e for e in rec.named('patch') if e[1] and e[1][0] == 'sys.stdout']
+            ctx.check(len(outs) == 1 and len(outs[0][1]) >= 2 and outs[0][1][1] is created[0], 'R2',
+                      '_start_mocking:patches-that-buffer' + tag, mod, sm,
+                      "sys.stdout is not patched with the buffer that was pushed for this execution",
+                      "printed text lands in another execution's buffer")
+            started = rec.named('_start_patches')
+            ctx.check(len(started) == 1 and any(isinstance(a, Obj) and a.attrs.get('target') == 'sys.stdout'
+                                                for a in started[0][1]), 'R2', '_start_mocking:starts-patch' + tag,
+                      mod, sm, "the sys.stdout patch is not handed to _start_patches exactly once",
+                      "output is not captured at all")
+            # now stop
+            del rec.events[:]
+            _, raised = symexec.run(fd, st, [context], bound_self=me, what='Sandbox._stop_mocking')
+            ap = rec.named('append_output')
+            ok2 = raised is None and me.attrs['_current_stdout'] == [older] and len(ap) == 1 and \
+                len(ap[0][1]) == 2 and ap[0][1][0] is created[0].attrs['text'] and ap[0][1][1] is context
+            ctx.check(ok2, 'R2', '_stop_mocking:records-popped-buffer' + tag, mod, st,
+                      "_stop_mocking does not pop this execution's buffer and append its text for the same context "
+                      "(append_output calls: %d)" % len(ap),
+                      "an execution's output is lost or attributed to another execution")
+            ctx.check(rec.order('_stop_patches', 'append_output')[:1] == ['_stop_patches'], 'R2',
+                      '_stop_mocking:stops-patches-first' + tag, mod, st,
+                      "_stop_mocking does not stop the patches before recording the output",
+                      "sys.stdout is still the capture buffer while pedal records")
 
 
 def r3_append_output_table(ctx, mod):
@@ -204,8 +252,9 @@ def r5_queue_operations(ctx, mod):
 
 def run(ctx):
     mod = ctx.repo.module(SANDBOX)
+    sym = Symbols(ctx.repo)
     r1_single_writer(ctx, mod)
-    r2_per_execution(ctx, mod)
+    r2_per_execution(ctx, mod, sym)
     r3_append_output_table(ctx, mod)
     r4_input_fifo(ctx, mod)
     r5_queue_operations(ctx, mod)
